@@ -775,6 +775,7 @@ func (in *Interp) appendCall(st *State, call *ast.CallExpr) Val {
 			if s, ok := sv.(BufV); ok {
 				sb := st.bufs[s.ID]
 				sl := in.viewLen(st, s)
+				sl = convResultLen(sb, s, sl)
 				loop := (*LoopCtx)(nil)
 				if len(in.loops) > 0 {
 					loop = in.loops[len(in.loops)-1]
@@ -1562,4 +1563,17 @@ func fullSliceNoSpare(e ast.Expr) bool {
 		return false
 	}
 	return types.ExprString(sl.High) == types.ExprString(sl.Max)
+}
+
+// convResultLen: net.IP.To4 / To16 return nil for an address that has no such form. Copied into a window that
+// was sized beforehand this does not matter (the window keeps its size); where the bytes are APPENDED (to a
+// slice or an output stream) the produced size is the result's real length, which is 0 or the nominal one.
+func convResultLen(sb *BufObj, s BufV, nominal *Term) *Term {
+	if sb == nil || sb.Origin != "field" || !s.Off.IsZero() || s.Hi != nil {
+		return nominal
+	}
+	if strings.HasSuffix(sb.Src, ".To4()") || strings.HasSuffix(sb.Src, ".To16()") {
+		return LenOf(sb.Src)
+	}
+	return nominal
 }
